@@ -36,6 +36,12 @@ pub fn generate(g: &mut Gen) {
         g.push(format!("rnd.generate {} {} {} 1", seed_for_state(state), hx(lo), hx(hi)), Tol::Exact, "generate/unrepresentable-width", true);
     }
     g.push(format!("rnd.generate 7 {} {} 3", hx(0.5), hx(0.5)), Tol::Exact, "generate/min=max", true);
+    // intervals whose width overflows single precision, at every kind of state (a zero state makes 0 * inf)
+    for seed in [0u64, M, 2 * M, 1, 12345, seed_for_state(M - 1), seed_for_state(M - 64)] {
+        for (lo, hi) in [(-3e38f32, 3e38f32), (f32::MIN, f32::MAX), (-3e38, 1.0), (-1.0, f32::MAX), (f32::MIN, 0.0)] {
+            g.push(format!("rnd.generate {} {} {} 3", seed, hx(lo), hx(hi)), Tol::Exact, "generate/overflowing-width", true);
+        }
+    }
     // empty and singleton shuffles
     // randomly initialised tensors: every rank with pairwise different extents, and the library's ranges
     for sh in ["S 7", "S 1", "D 2 5", "D 5 2", "D 1 3", "T 2 3 5", "T 5 3 2", "T 1 2 4", "T 3 1 1", "Q 2 3 4 5", "Q 5 4 3 2", "Q 1 2 1 3"] {
